@@ -110,6 +110,9 @@ pub struct Ctx {
     /// how many steps were actually executed (not skipped as meaningless)
     pub executed: u64,
     pub stop_at_first: bool,
+    /// set when bytes outside the simulator's control (pqcrypto randomness) enter the run:
+    /// from then on nothing is added to the trace hash
+    pub fenced: bool,
 }
 
 impl Ctx {
@@ -129,6 +132,7 @@ impl Ctx {
             sim_ticks: 0,
             executed: 0,
             stop_at_first: true,
+            fenced: false,
         }
     }
     /// Install the library entropy stream for this run on the current thread.
@@ -137,6 +141,9 @@ impl Ctx {
     }
     /// Record an event in the trace. Never draws randomness, never reads a clock.
     pub fn t(&mut self, line: &str) {
+        if self.fenced {
+            return;
+        }
         self.trace.update(line.as_bytes());
         self.trace.update(b"\n");
         if let Some(l) = &mut self.trace_lines {
